@@ -952,12 +952,6 @@ Section Run.
   Qed.
 
   (* ---- what the invariant says about the yielded items *)
-  Definition drained (w : world) : Prop :=
-    match w_ph w with
-    | PhReady st => exists st', ss_poll (ss_fuel st) st None = Some (RPending, st')
-    | _ => False
-    end.
-
   Lemma inv_prefix : forall w, WInv w -> exists rest, spec_yield cf (w_start w) h = yielded w ++ rest.
   Proof.
     intros w (pre & B & P). unfold yielded. rewrite (b_split _ _ _ _ _ B).
@@ -986,9 +980,6 @@ Section Run.
 End Run.
 
 (* ---------------------------------------------------------------- the theorems *)
-Definition Known_C32 (cf : cfg) (h : list wmsg) (sched : list action) : Prop :=
-  w_lost (run cf h sched) = true \/ forgeable cf h = true.
-
 Theorem owner_partial : forall cf h sched,
   bus_history cf h = true -> ~ Known_C32 cf h sched ->
   let w := run cf h sched in
